@@ -10,6 +10,7 @@ import (
 
 	"golang.org/x/tools/go/ssa"
 
+	"verif/internal/core"
 	"verif/internal/engine/paths"
 	"verif/internal/ir"
 )
@@ -180,7 +181,7 @@ func (c *Ctx) terminalTables() {
 		c.R.Unresolved("sessions.Ackqueue.Acked / release loop")
 		return
 	}
-	rm := c.P.Func("sessions", "Ackqueue", "removeHead")
+	isRm := c.headRemoval()
 	spec := map[int64]bool{4: true, 6: true, 7: true, 9: true, 11: true, 13: true}
 	// (a) states Acked releases: comparisons of a .State load whose equal-edge reaches removeHead or an append to ackdone
 	releases := map[int64]bool{}
@@ -191,10 +192,10 @@ func (c *Ctx) terminalTables() {
 	}
 	for _, s := range sites {
 		if edgeReaches(s.If, s.Edge, func(in ssa.Instruction) bool {
+			if isRm(in) {
+				return true
+			}
 			if call, ok := in.(*ssa.Call); ok {
-				if rm != nil && call.Common().StaticCallee() == rm {
-					return true
-				}
 				if bi, ok := call.Common().Value.(*ssa.Builtin); ok && bi.Name() == "append" {
 					return true
 				}
@@ -549,11 +550,17 @@ func freshValue(v ssa.Value, depth int) (bool, string) {
 		if f := cc.StaticCallee(); f != nil && strings.HasPrefix(f.Name(), "new") {
 			return true, "constructor " + f.Name()
 		}
+		if f := cc.StaticCallee(); f != nil && returnsFresh(f, 0, depth+1) {
+			return true, "every return of " + f.Name() + " yields a value allocated there"
+		}
 		return false, "result of " + cc.String()
 	case *ssa.Extract:
 		if call, ok := x.Tuple.(*ssa.Call); ok {
 			if f := call.Common().StaticCallee(); f != nil && (f.Name() == "Clone" || strings.HasPrefix(f.Name(), "New")) {
 				return true, f.Name() + " result"
+			}
+			if f := call.Common().StaticCallee(); f != nil && returnsFresh(f, x.Index, depth+1) {
+				return true, "every return of " + f.Name() + " yields a value allocated there"
 			}
 		}
 		return false, "tuple element of " + x.Tuple.String()
@@ -570,6 +577,26 @@ func freshValue(v ssa.Value, depth int) (bool, string) {
 		return false, "captured variable " + x.Name()
 	}
 	return false, v.String()
+}
+
+// returnsFresh: f is a library function with a body and result #idx of every return is allocated in f (or nil).
+func returnsFresh(f *ssa.Function, idx, depth int) bool {
+	if f.Blocks == nil || f.Pkg == nil || !strings.HasPrefix(f.Pkg.Pkg.Path(), core.ModPath) || depth > 6 {
+		return false
+	}
+	rets := ir.Returns(f)
+	if len(rets) == 0 {
+		return false
+	}
+	for _, ret := range rets {
+		if idx >= len(ret.Results) {
+			return false
+		}
+		if ok, _ := freshValue(ir.ReturnOperand(ret, idx), depth+1); !ok {
+			return false
+		}
+	}
+	return true
 }
 
 // retentionFresh: every pointer-like value stored into a field of the long-lived
